@@ -22,7 +22,7 @@ _BIN = {ast.Add: operator.add, ast.Sub: operator.sub, ast.Mult: operator.mul, as
         ast.BitAnd: operator.and_, ast.BitOr: operator.or_, ast.LShift: operator.lshift, ast.RShift: operator.rshift}
 _CMP = {ast.Lt: operator.lt, ast.LtE: operator.le, ast.Gt: operator.gt, ast.GtE: operator.ge, ast.Eq: operator.eq, ast.NotEq: operator.ne,
         ast.In: lambda a, b: a in b, ast.NotIn: lambda a, b: a not in b, ast.Is: operator.is_, ast.IsNot: operator.is_not}
-_FUNCS = {'len': len, 'ord': ord, 'chr': chr, 'int': int, 'str': str, 'bool': bool, 'abs': abs, 'min': min, 'max': max, 'tuple': tuple,
+_FUNCS = {'len': len, 'ord': ord, 'chr': chr, 'int': int, 'str': str, 'hex': hex, 'format': format, 'bool': bool, 'abs': abs, 'min': min, 'max': max, 'tuple': tuple,
           'list': list, 'reversed': lambda x: list(reversed(x)), 'sorted': sorted, 'divmod': divmod, 'sum': sum, 'repr': repr}
 _OK_TYPES = (str, int, bool, tuple, list, dict, type(None))
 
@@ -34,6 +34,23 @@ def module_resolver(repo, module):
         if r and r[0] == 'var' and r[1] is not None:
             return r[1]
         return None
+
+    def nonnull(text):
+        """does the dotted name denote a class, a function or a class-level member bound to something other than None (an enum member)?"""
+        try:
+            e = ast.parse(text, mode='eval').body
+        except SyntaxError:
+            return False
+        r = repo.resolve_expr_static(module, e)
+        if r is None:
+            return False
+        if r[0] in ('class', 'func'):
+            return True
+        if r[0] == 'classattr':
+            v = r[1].class_attrs.get(r[2])
+            return v is not None and not (isinstance(v, ast.Constant) and v.value is None)
+        return False
+    res.nonnull = nonnull
     return res
 
 
@@ -116,6 +133,15 @@ def fold(e, env=None, texts=None, resolver=None):
             left = ev(x.left)
             for op, r in zip(x.ops, x.comparators):
                 right = ev(r)
+                if isinstance(op, (ast.Is, ast.IsNot, ast.Eq, ast.NotEq)) and (left is None or right is None) and (is_sym(left) or is_sym(right)):
+                    # a class-level member (an enum value) / class / function is not None; any other opaque name may be
+                    sv = left if is_sym(left) else right
+                    if getattr(resolver, 'nonnull', None) is not None and resolver.nonnull(sv[1]):
+                        if isinstance(op, (ast.Is, ast.Eq)):
+                            return False
+                        left = right
+                        continue
+                    raise Unfoldable('comparison of an opaque value with None: ' + norm(x))
                 if (is_sym(left) or is_sym(right)) and not (isinstance(op, (ast.Eq, ast.NotEq)) and is_sym(left) and is_sym(right)) \
                         and not (isinstance(op, (ast.In, ast.NotIn)) and isinstance(right, (list, tuple, dict)) and not is_sym(right)):
                     raise Unfoldable('comparison with an opaque value: ' + norm(x))
@@ -167,9 +193,18 @@ def fold(e, env=None, texts=None, resolver=None):
             for v in x.values:
                 if isinstance(v, ast.Constant):
                     out += v.value
-                elif isinstance(v, ast.FormattedValue) and v.format_spec is None and v.conversion in (-1, 115, 114):
+                elif isinstance(v, ast.FormattedValue) and v.conversion in (-1, 115, 114):
                     val = ev(v.value)
-                    out += repr(val) if v.conversion == 114 else str(val)
+                    if is_sym(val):
+                        raise Unfoldable(norm(x))
+                    spec = ''
+                    if v.format_spec is not None:
+                        spec = ev(v.format_spec)
+                    val = repr(val) if v.conversion == 114 else (str(val) if v.conversion == 115 else val)
+                    try:
+                        out += format(val, spec)
+                    except (TypeError, ValueError) as ex:
+                        raise Unfoldable('%s: %s' % (norm(x), ex))
                 else:
                     raise Unfoldable(norm(x))
             return out
